@@ -574,3 +574,203 @@ Proof.
   - intros k1 k2 [<-|[<-|[]]] [<-|[<-|[]]]; reflexivity.
   - vm_compute. reflexivity.
 Qed.
+
+(* ======================================================================================================================== *)
+(* 3b. the breadth-first split of do_split over a sample SET (any list, empty lists included) = the per-sample walk           *)
+(* ======================================================================================================================== *)
+Definition valid_pair (nodes : list node) (p : Z) : Prop := (0 <= p)%Z /\ Z.even p = true /\ (p + 1 < nlen nodes)%Z.
+
+Lemma tree_group_S f nodes p s : tree_group (S f) nodes p s =
+  match fget (n_feature (znth p nodes node0)) s with
+  | FNum x => if src_c10_tree_terminal (n_next (znth p nodes node0))
+              then Some (src_c10_tree_leaf (n_table (znth p nodes node0)) (side_of x (n_thr (znth p nodes node0))))
+              else tree_group f nodes (n_next (znth (src_c10_tree_child p (side_of x (n_thr (znth p nodes node0)))) nodes node0)) s
+  | _ => None
+  end.
+Proof. reflexivity. Qed.
+Lemma tree_group_step nodes nt s p : tree_wf nodes nt = true -> valid_pair nodes p ->
+  tree_group (S (length nodes)) nodes p s =
+  match fget (n_feature (znth p nodes node0)) s with
+  | FNum x => if src_c10_tree_terminal (n_next (znth p nodes node0))
+              then Some (src_c10_tree_leaf (n_table (znth p nodes node0)) (side_of x (n_thr (znth p nodes node0))))
+              else tree_group (S (length nodes)) nodes
+                     (n_next (znth (src_c10_tree_child p (side_of x (n_thr (znth p nodes node0)))) nodes node0)) s
+  | _ => None
+  end.
+Proof.
+  intros Hwf (H0 & He & Hlt). rewrite (tree_group_S (length nodes) nodes p s). set (nd := znth p nodes node0).
+  destruct (fget (n_feature nd) s) as [|x|h]; try reflexivity.
+  destruct (src_c10_tree_terminal (n_next nd)) eqn:Et; [reflexivity|].
+  pose proof (wf_pair nodes nt p Hwf H0 He Hlt) as Hp. unfold pair_ok in Hp. fold nd in Hp. rewrite Et in Hp.
+  rewrite !andb_true_iff in Hp. destruct Hp as (_ & Hc0 & Hc1). unfold child_ok in Hc0, Hc1. rewrite !andb_true_iff in Hc0, Hc1.
+  destruct Hc0 as ((A0 & B0) & C0). destruct Hc1 as ((A1 & B1) & C1). apply Z.ltb_lt in A0, B0, A1, B1.
+  unfold side_of. destruct (qlt x (n_thr nd)); eapply tree_fuel_irrelevant; try exact Hwf; try assumption; unfold nlen in *; lia.
+Qed.
+Lemma wf_children nodes nt p : tree_wf nodes nt = true -> valid_pair nodes p -> src_c10_tree_terminal (n_next (znth p nodes node0)) = false ->
+  forall g, g = 0%Z \/ g = 1%Z -> valid_pair nodes (n_next (znth (src_c10_tree_child p g) nodes node0)).
+Proof.
+  intros Hwf (H0 & He & Hlt) Et g Hg.
+  pose proof (wf_pair nodes nt p Hwf H0 He Hlt) as Hp. unfold pair_ok in Hp. rewrite Et in Hp.
+  rewrite !andb_true_iff in Hp. destruct Hp as (_ & Hc0 & Hc1). unfold child_ok in Hc0, Hc1. rewrite !andb_true_iff in Hc0, Hc1.
+  destruct Hc0 as ((A0 & B0) & C0). destruct Hc1 as ((A1 & B1) & C1). apply Z.ltb_lt in A0, B0, A1, B1.
+  unfold valid_pair. destruct Hg as [-> | ->]; (split; [lia | split; assumption]).
+Qed.
+
+Lemma in_stump_part f thr g ss e : In e (stump_part f thr g ss) <-> In e ss /\ exists x, fget f (snd e) = FNum x /\ side_of x thr = g.
+Proof.
+  unfold stump_part. rewrite filter_In. split; intros (Hin & H); (split; [exact Hin|]).
+  - destruct (fget f (snd e)) as [|x|h]; try discriminate. exists x. split; [reflexivity | now apply Z.eqb_eq].
+  - destruct H as (x & -> & <-). apply Z.eqb_refl.
+Qed.
+
+(* the assignments produced by the queue: exactly the (sample id, leaf) pairs of the samples of the queued sets that reach a leaf *)
+Lemma bfs_members nodes nt : tree_wf nodes nt = true -> forall fuel q, bfs_done fuel nodes q = true ->
+  (forall p ss, In (p, ss) q -> valid_pair nodes p) ->
+  forall i g, In (i, g) (tree_bfs fuel nodes q) <->
+    exists p ss s, In (p, ss) q /\ In (i, s) ss /\ tree_group (S (length nodes)) nodes p s = Some g.
+Proof.
+  intro Hwf. induction fuel as [|f IH]; intros q Hd Hv i g.
+  - destruct q as [|[p ss] rest]; [|cbn in Hd; discriminate]. cbn [tree_bfs]. split; [intros [] | intros (p & ss & s & [] & _)].
+  - destruct q as [|[p ss] rest]; [cbn [tree_bfs]; split; [intros [] | intros (p & ss & s & [] & _)]|].
+    cbn [tree_bfs bfs_done] in *.
+    assert (Vp : valid_pair nodes p) by (apply (Hv p ss); now left).
+    assert (Vr : forall p' ss', In (p', ss') rest -> valid_pair nodes p') by (intros p' ss' H; apply (Hv p' ss'); now right).
+    set (nd := znth p nodes node0) in *.
+    destruct (src_c10_tree_terminal (n_next nd)) eqn:Et.
+    + rewrite !in_app_iff, !in_map_iff. rewrite (IH rest Hd Vr i g). split.
+      * intros [(e & E & He)|[(e & E & He)|(p' & ss' & s & Hin & Hs & Hg)]].
+        -- destruct e as [i' s]. cbn [fst snd] in E. injection E as -> <-. apply in_stump_part in He. destruct He as (Hin & x & Hx & Hsd).
+           exists p, ss, s. split; [now left|]. split; [exact Hin|]. rewrite (tree_group_step nodes nt s p Hwf Vp). fold nd. cbn [snd] in Hx.
+           rewrite Hx, Et, Hsd. reflexivity.
+        -- destruct e as [i' s]. cbn [fst snd] in E. injection E as -> <-. apply in_stump_part in He. destruct He as (Hin & x & Hx & Hsd).
+           exists p, ss, s. split; [now left|]. split; [exact Hin|]. rewrite (tree_group_step nodes nt s p Hwf Vp). fold nd. cbn [snd] in Hx.
+           rewrite Hx, Et, Hsd. reflexivity.
+        -- exists p', ss', s. split; [now right|]. now split.
+      * intros (p' & ss' & s & [E|Hin] & Hs & Hg).
+        -- injection E as <- <-. rewrite (tree_group_step nodes nt s p Hwf Vp) in Hg. fold nd in Hg.
+           destruct (fget (n_feature nd) s) as [|x|h] eqn:Hx; try discriminate. rewrite Et in Hg. injection Hg as <-.
+           destruct (side_of_range x (n_thr nd)) as [Hsd|Hsd]; rewrite Hsd; [left | right; left]; exists (i, s); (split; [reflexivity|]);
+             apply in_stump_part; (split; [exact Hs|]); exists x; cbn [snd]; now split.
+        -- right. right. exists p', ss', s. now split.
+    + assert (Vq : forall p' ss', In (p', ss') (rest ++ [(n_next (znth (src_c10_tree_child p 0) nodes node0), stump_part (n_feature nd) (n_thr nd) 0 ss);
+                                                        (n_next (znth (src_c10_tree_child p 1) nodes node0), stump_part (n_feature nd) (n_thr nd) 1 ss)]) ->
+                               valid_pair nodes p').
+      { intros p' ss' H. apply in_app_or in H. destruct H as [H|[H|[H|[]]]]; [now apply (Vr p' ss') | |]; injection H as <- _;
+          apply (wf_children nodes nt p Hwf Vp Et); [now left | now right]. }
+      rewrite (IH _ Hd Vq i g). split.
+      * intros (p' & ss' & s & Hin & Hs & Hg). apply in_app_or in Hin. destruct Hin as [Hin|[E|[E|[]]]].
+        -- exists p', ss', s. split; [now right|]. now split.
+        -- injection E as <- <-. apply in_stump_part in Hs. destruct Hs as (Hin & x & Hx & Hsd). cbn [snd] in Hx.
+           exists p, ss, s. split; [now left|]. split; [exact Hin|]. rewrite (tree_group_step nodes nt s p Hwf Vp). fold nd.
+           rewrite Hx, Et, Hsd. exact Hg.
+        -- injection E as <- <-. apply in_stump_part in Hs. destruct Hs as (Hin & x & Hx & Hsd). cbn [snd] in Hx.
+           exists p, ss, s. split; [now left|]. split; [exact Hin|]. rewrite (tree_group_step nodes nt s p Hwf Vp). fold nd.
+           rewrite Hx, Et, Hsd. exact Hg.
+      * intros (p' & ss' & s & [E|Hin] & Hs & Hg).
+        -- injection E as <- <-. rewrite (tree_group_step nodes nt s p Hwf Vp) in Hg. fold nd in Hg.
+           destruct (fget (n_feature nd) s) as [|x|h] eqn:Hx; try discriminate. rewrite Et in Hg.
+           destruct (side_of_range x (n_thr nd)) as [Hsd|Hsd]; rewrite Hsd in Hg.
+           ++ exists (n_next (znth (src_c10_tree_child p 0) nodes node0)), (stump_part (n_feature nd) (n_thr nd) 0 ss), s.
+              split; [apply in_or_app; right; now left|]. split; [|exact Hg]. apply in_stump_part. split; [exact Hs|]. exists x. cbn [snd]. now split.
+           ++ exists (n_next (znth (src_c10_tree_child p 1) nodes node0)), (stump_part (n_feature nd) (n_thr nd) 1 ss), s.
+              split; [apply in_or_app; right; right; now left|]. split; [|exact Hg]. apply in_stump_part. split; [exact Hs|]. exists x. cbn [snd]. now split.
+        -- exists p', ss', s. split; [apply in_or_app; now left|]. now split.
+Qed.
+
+Lemma assigned_app i l e : assigned i (l ++ [e]) = if (fst e =? i)%nat then Some (snd e) else assigned i l.
+Proof. unfold assigned. rewrite fold_left_app. reflexivity. Qed.
+Lemma assigned_none i l : (forall g, ~ In (i, g) l) -> assigned i l = None.
+Proof.
+  induction l as [|e l IH] using rev_ind; intro H; [reflexivity|]. rewrite assigned_app. destruct (fst e =? i)%nat eqn:E.
+  - apply Nat.eqb_eq in E. exfalso. apply (H (snd e)). apply in_or_app. right. left. destruct e; cbn in *; now subst.
+  - apply IH. intros g Hg. apply (H g). apply in_or_app. now left.
+Qed.
+Lemma assigned_some i l g0 : In (i, g0) l -> (forall g, In (i, g) l -> g = g0) -> assigned i l = Some g0.
+Proof.
+  induction l as [|e l IH] using rev_ind; intros Hin Hall; [contradiction|]. rewrite assigned_app. destruct (fst e =? i)%nat eqn:E.
+  - apply Nat.eqb_eq in E. f_equal. apply Hall. apply in_or_app. right. left. destruct e; cbn in *; now subst.
+  - apply Nat.eqb_neq in E. apply IH.
+    + apply in_app_or in Hin. destruct Hin as [Hin|[->|[]]]; [exact Hin | cbn in E; congruence].
+    + intros g Hg. apply Hall. apply in_or_app. now left.
+Qed.
+
+(* C10_tree_bfs_is_walk: for EVERY list of samples (ids determine the sample; the empty list and lists that leave whole branches empty
+   included) the set-based breadth-first split assigns to every listed sample exactly the leaf of its walk, and nothing to the others *)
+Lemma bfs_is_walk nodes nt fuel ss : tree_wf nodes nt = true -> bfs_done fuel nodes [(0%Z, ss)] = true ->
+  (forall i s s', In (i, s) ss -> In (i, s') ss -> s = s') ->
+  forall i, (forall s, In (i, s) ss -> assigned i (tree_bfs fuel nodes [(0%Z, ss)]) = walk_from nodes 0 s) /\
+            ((forall s, ~ In (i, s) ss) -> assigned i (tree_bfs fuel nodes [(0%Z, ss)]) = None).
+Proof.
+  intros Hwf Hd Hfun i. pose proof (wf_len _ _ Hwf) as Hl.
+  assert (Hv : forall p ss', In (p, ss') [(0%Z, ss)] -> valid_pair nodes p).
+  { intros p ss' [E|[]]. injection E as <- _. unfold valid_pair. split; [lia | split; [reflexivity | exact Hl]]. }
+  pose proof (bfs_members nodes nt Hwf fuel _ Hd Hv i) as M. split.
+  - intros s Hs. unfold walk_from. destruct (tree_group (S (length nodes)) nodes 0%Z s) as [g|] eqn:Eg.
+    + apply assigned_some.
+      * apply M. exists 0%Z, ss, s. split; [now left|]. now split.
+      * intros g' Hg'. apply M in Hg'. destruct Hg' as (p & ss' & s' & [E|[]] & Hs' & Hg'). injection E as <- <-.
+        rewrite (Hfun i s' s Hs' Hs) in Hg'. congruence.
+    + apply assigned_none. intros g Hg. apply M in Hg. destruct Hg as (p & ss' & s' & [E|[]] & Hs' & Hg). injection E as <- <-.
+      rewrite (Hfun i s' s Hs' Hs) in Hg. congruence.
+  - intro Hno. apply assigned_none. intros g Hg. apply M in Hg. destruct Hg as (p & ss' & s' & [E|[]] & Hs' & _). injection E as <- <-.
+    exact (Hno s' Hs').
+Qed.
+
+(* a fuel that suffices for every well-formed table and every sample list *)
+Lemma bfs_fuel_app nodes a b : bfs_fuel nodes (a ++ b) = (bfs_fuel nodes a + bfs_fuel nodes b)%nat.
+Proof. unfold bfs_fuel. induction a as [|e a IH]; cbn [app fold_right]; [reflexivity|]. rewrite IH. lia. Qed.
+Lemma bfs_weight_pos nodes p : (1 <= bfs_weight nodes p)%nat.
+Proof. unfold bfs_weight. rewrite Nat.pow_succ_r'. pose proof (Nat.pow_nonzero 2 (Z.to_nat ((nlen nodes - p) / 2))). lia. Qed.
+Lemma bfs_weight_child nodes p c0 c1 : (p + 1 < c0)%Z -> (c0 + 1 < nlen nodes)%Z -> (p + 1 < c1)%Z -> (c1 + 1 < nlen nodes)%Z -> (0 <= p)%Z ->
+  (1 + bfs_weight nodes c0 + bfs_weight nodes c1 <= bfs_weight nodes p)%nat.
+Proof.
+  intros A0 B0 A1 B1 H0. unfold bfs_weight.
+  set (h := Z.to_nat ((nlen nodes - p) / 2)). set (h0 := Z.to_nat ((nlen nodes - c0) / 2)). set (h1 := Z.to_nat ((nlen nodes - c1) / 2)).
+  assert (E0 : (S h0 <= h)%nat).
+  { unfold h0, h. assert ((nlen nodes - c0) / 2 + 1 <= (nlen nodes - p) / 2)%Z by (Z.div_mod_to_equations; lia).
+    assert (0 <= (nlen nodes - c0) / 2)%Z by (Z.div_mod_to_equations; lia). lia. }
+  assert (E1 : (S h1 <= h)%nat).
+  { unfold h1, h. assert ((nlen nodes - c1) / 2 + 1 <= (nlen nodes - p) / 2)%Z by (Z.div_mod_to_equations; lia).
+    assert (0 <= (nlen nodes - c1) / 2)%Z by (Z.div_mod_to_equations; lia). lia. }
+  pose proof (Nat.pow_le_mono_r 2 (S h0) h ltac:(lia) E0). pose proof (Nat.pow_le_mono_r 2 (S h1) h ltac:(lia) E1).
+  rewrite (Nat.pow_succ_r' 2 h). pose proof (Nat.pow_nonzero 2 (S h0)). pose proof (Nat.pow_nonzero 2 (S h1)). lia.
+Qed.
+Lemma bfs_fuel_enough nodes nt : tree_wf nodes nt = true -> forall fuel q, (forall p ss, In (p, ss) q -> valid_pair nodes p) ->
+  (bfs_fuel nodes q <= fuel)%nat -> bfs_done fuel nodes q = true.
+Proof.
+  intro Hwf. induction fuel as [|f IH]; intros q Hv Hf.
+  - destruct q as [|[p ss] rest]; [reflexivity|]. cbn [bfs_fuel fold_right fst] in Hf. pose proof (bfs_weight_pos nodes p). lia.
+  - destruct q as [|[p ss] rest]; [reflexivity|]. cbn [bfs_done].
+    assert (Vp : valid_pair nodes p) by (apply (Hv p ss); now left).
+    assert (Vr : forall p' ss', In (p', ss') rest -> valid_pair nodes p') by (intros p' ss' H; apply (Hv p' ss'); now right).
+    change (bfs_fuel nodes ((p, ss) :: rest)) with (bfs_weight nodes p + bfs_fuel nodes rest)%nat in Hf.
+    destruct (src_c10_tree_terminal (n_next (znth p nodes node0))) eqn:Et.
+    + apply IH; [exact Vr|]. pose proof (bfs_weight_pos nodes p). lia.
+    + apply IH.
+      * intros p' ss' H. apply in_app_or in H. destruct H as [H|[H|[H|[]]]]; [now apply (Vr p' ss') | |]; injection H as <- _;
+          apply (wf_children nodes nt p Hwf Vp Et); [now left | now right].
+      * rewrite bfs_fuel_app. cbn [bfs_fuel fold_right fst].
+        destruct (wf_children nodes nt p Hwf Vp Et 0%Z (or_introl eq_refl)) as (_ & _ & B0).
+        destruct (wf_children nodes nt p Hwf Vp Et 1%Z (or_intror eq_refl)) as (_ & _ & B1).
+        destruct Vp as (H0 & He & Hlt).
+        pose proof (wf_pair nodes nt p Hwf H0 He Hlt) as Hp. unfold pair_ok in Hp. rewrite Et in Hp.
+        rewrite !andb_true_iff in Hp. destruct Hp as (_ & Hc0 & Hc1). unfold child_ok in Hc0, Hc1. rewrite !andb_true_iff in Hc0, Hc1.
+        destruct Hc0 as ((A0 & _) & _). destruct Hc1 as ((A1 & _) & _). apply Z.ltb_lt in A0, A1.
+        pose proof (bfs_weight_child nodes p _ _ A0 B0 A1 B1 H0). lia.
+Qed.
+Lemma bfs_fuel_root nodes nt ss fuel : tree_wf nodes nt = true -> (bfs_fuel nodes [(0%Z, ss)] <= fuel)%nat ->
+  bfs_done fuel nodes [(0%Z, ss)] = true.
+Proof.
+  intros Hwf Hf. apply (bfs_fuel_enough nodes nt Hwf); [|exact Hf]. intros p ss' [E|[]]. injection E as <- _.
+  unfold valid_pair. split; [lia | split; [reflexivity | exact (wf_len _ _ Hwf)]].
+Qed.
+(* the group of a sample does not depend on the list it is split with *)
+Lemma bfs_sublist nodes nt f1 f2 ss1 ss2 : tree_wf nodes nt = true ->
+  bfs_done f1 nodes [(0%Z, ss1)] = true -> bfs_done f2 nodes [(0%Z, ss2)] = true ->
+  (forall i s s', In (i, s) ss1 -> In (i, s') ss1 -> s = s') -> (forall i s s', In (i, s) ss2 -> In (i, s') ss2 -> s = s') ->
+  forall i s, In (i, s) ss1 -> In (i, s) ss2 ->
+    assigned i (tree_bfs f1 nodes [(0%Z, ss1)]) = assigned i (tree_bfs f2 nodes [(0%Z, ss2)]).
+Proof.
+  intros Hwf D1 D2 F1 F2 i s H1 H2.
+  rewrite (proj1 (bfs_is_walk nodes nt f1 ss1 Hwf D1 F1 i) s H1), (proj1 (bfs_is_walk nodes nt f2 ss2 Hwf D2 F2 i) s H2). reflexivity.
+Qed.
